@@ -72,10 +72,15 @@ class Report:
     def note(self, s):
         self.notes.append(s)
 
+    # rules that read the program text (MIR call sites, aggregates, types) and not the interpreter's result: an unknown
+    # library function elsewhere does not make them less certain
+    STATIC_RULES = {'R18.1', 'R18.5', 'R20.2', 'R20.5', 'R7.8', 'R15.5', 'R17.12', 'R19.7', 'R18.4'}
+
     def downgrade_all(self, reason):
-        """the analysis met library code it has no model for: nothing it concluded is a verdict (never an alarm)"""
-        self.obls = [(r, k, (None if st is False else st), (f'[not decided: {reason}] ' + d if st is False else d)) for (r, k, st, d) in self.obls]
-        self.violations = []
+        """the analysis met library code it has no model for: what the interpreter concluded is not a verdict (never an alarm)"""
+        self.obls = [(r, k, (None if (st is False and r not in self.STATIC_RULES) else st),
+                      (f'[not decided: {reason}] ' + d if (st is False and r not in self.STATIC_RULES) else d)) for (r, k, st, d) in self.obls]
+        self.violations = [(key, p) for (key, p) in self.violations if p.get('rule') in self.STATIC_RULES]
         self.floor_downgrade = reason
 
     def finish(self):
